@@ -611,6 +611,33 @@ class SimPool:
             self.stats["chunks_out_of_order"] = self.stats.get("chunks_out_of_order", 0) + 1
         return results
 
+    # The rest of the multiprocessing.Pool surface, so that a refactoring to another (legitimate) pool call does not
+    # trip the harness; completion order is the simulator's decision wherever the real pool leaves it open.
+    def starmap(self, func, iterable, chunksize=None):
+        return self.map(_StarCall(func), list(iterable), chunksize)
+
+    def imap(self, func, iterable, chunksize=1):
+        return iter(self.map(func, iterable, chunksize))  # ordered, like the real imap
+
+    def imap_unordered(self, func, iterable, chunksize=1):
+        res = self.map(func, iterable, chunksize)
+        order = list(range(len(res)))
+        random.Random(self.plan.get("order_seed", 0) + 1).shuffle(order)  # any completion order is legal
+        self.stats["unordered_results_shuffled"] = self.stats.get("unordered_results_shuffled", 0) + 1
+        return iter([res[i] for i in order])
+
+    def apply(self, func, args=(), kwds=None):
+        return pickle.loads(pickle.dumps(func))(*args, **(kwds or {}))
+
+    def apply_async(self, func, args=(), kwds=None, callback=None, error_callback=None):
+        return _Ready(self.apply(func, args, kwds), callback)
+
+    def map_async(self, func, iterable, chunksize=None, callback=None, error_callback=None):
+        return _Ready(self.map(func, iterable, chunksize), callback)
+
+    def starmap_async(self, func, iterable, chunksize=None, callback=None, error_callback=None):
+        return _Ready(self.starmap(func, iterable, chunksize), callback)
+
     def close(self):
         pass
 
@@ -619,6 +646,35 @@ class SimPool:
 
     def terminate(self):
         pass
+
+
+class _StarCall:
+    def __init__(self, func):
+        self.func = func
+
+    def __call__(self, args):
+        return self.func(*args)
+
+
+class _Ready:
+    """AsyncResult of a call that has already run inside the simulator."""
+
+    def __init__(self, value, callback=None):
+        self._value = value
+        if callback is not None:
+            callback(value)
+
+    def get(self, timeout=None):
+        return self._value
+
+    def wait(self, timeout=None):
+        return None
+
+    def ready(self):
+        return True
+
+    def successful(self):
+        return True
 
 
 class AssignmentCheck(Check):
